@@ -37,7 +37,20 @@ use serde::{Deserialize, Serialize};
 ///
 /// Apaths must start with `/` and not end with `/` unless they have length 1.
 #[derive(Clone, Debug, Eq, PartialEq, Serialize, Deserialize, Hash)]
+#[serde(try_from = "UncheckedApath")]
 pub struct Apath(String);
+
+/// The serialized form of an apath, before it's checked to be well-formed.
+#[derive(Deserialize)]
+struct UncheckedApath(String);
+
+impl TryFrom<UncheckedApath> for Apath {
+    type Error = ApathParseError;
+
+    fn try_from(unchecked: UncheckedApath) -> Result<Self, Self::Error> {
+        unchecked.0.parse()
+    }
+}
 
 impl Apath {
     /// True if this string is a well-formed apath.
